@@ -455,3 +455,22 @@ Section Close.
     destruct I3' as (_ & _ & HX3 & _). rewrite Dx in HX3. exact HX3.
   Qed.
 End Close.
+
+Theorem close_propagates_all : forall W, all_inner W = true -> forall sched,
+  let st := j_run W sched (j_init W) in
+  (Forall (fun n => 0 <= n <= 1) (j_calls st) /\
+   (1 <= j_baseB st -> j_calls st = repeat 1 (length W) /\ (W <> [] -> j_baseB st = 1)) /\
+   (j_baseB st = 0 -> j_calls st = repeat 0 (length W))) /\
+  (j_all_done st = true -> 1 <= j_baseA st /\ 1 <= j_baseB st) /\
+  (j_triggered st = true -> j_all_done st = false -> x_enabled st = true \/ y_enabled st = true) /\
+  ((x_enabled st = true -> j_remaining (j_step W st EvX) = j_remaining st - 1) /\
+   (y_enabled st = true -> j_remaining (j_step W st EvY) = j_remaining st - 1) /\
+   0 <= j_remaining st <= 6 /\ (j_remaining st = 0 <-> j_all_done st = true)) /\
+  (j_triggered st = true ->
+   let st' := j_run W j_drain st in j_all_done st' = true /\ 1 <= j_baseA st' /\ 1 <= j_baseB st').
+Proof.
+  intros W Hall sched st. assert (Hr : reachable W st) by (exists sched; reflexivity).
+  split; [exact (close_once W Hall st Hr)|]. split; [exact (done_closed W Hall st Hr)|].
+  split; [exact (close_not_stuck W Hall st Hr)|]. split; [exact (close_progress W Hall st Hr)|].
+  exact (close_propagates_bounded W Hall st Hr).
+Qed.
